@@ -359,6 +359,9 @@ def run(tier, seed):
                 for q in ("index_at_m", "cross_dup", "uncommitted_leaf", "batch_swap"):
                     native[q] = native_stm(q)
                 reproduced = "accepted" in native[scen].replace("alone=accepted", "")
+                if name == "index_won_by_own_signature_and_stake" and not reproduced:
+                    native["lost_index"] = native_stm("lost_index")
+                    reproduced = "VIOLATED" in native["lost_index"]
             else:
                 native["note"] = "no native scenario for this clause; structural counterexample only"
         except Exception as e:
